@@ -249,6 +249,11 @@ def explore(scenario, name=None, max_paths=4000, budget_s=600):
             res.undecided.append((list(ctx.trail), str(e)))
         except RecursionError as e:  # pragma: no cover
             res.undecided.append((list(ctx.trail), "recursion limit: " + str(e)))
+        except Exception as e:
+            if type(e).__name__ == "PyRaise":
+                res.undecided.append((list(ctx.trail), f"interpreted code raised an exception the scenario does not expect: {e}"))
+            else:
+                raise
         res.paths += 1
         res.vcs.extend(ctx.vcs)
         for n in ctx.notes:
